@@ -314,6 +314,10 @@ def run_check(prop, tier, replay=None):
     repo_status_before = sh(["git", "-C", REPO, "status", "--porcelain"], stdout=subprocess.PIPE, text=True).stdout
 
     subs = [s for s in spec["subs"] if tier in s.get("tiers", ("quick", "thorough"))]
+    only_sub = os.environ.get("VERIF_ONLY_SUB")
+    if only_sub:
+        # development aid: run a single sub-run (evidence is then partial; not for registered commands)
+        subs = [s for s in subs if s["name"] in only_sub.split(",")]
     if replay:
         w = replay_data
         subs = [s for s in spec["subs"] if s["name"] == w.get("sub")] or subs[:1]
